@@ -123,6 +123,25 @@ pub fn hostile_corpus(rng: &mut Rng) -> Vec<GenFrame> {
         }
         v.push(GenFrame { bytes: frame(ty, &[rng.byte(), rng.byte()]), class: "two-byte" });
     }
+    // frames the daemon must SKIP (unknown type, fixed-size type announced with another size) with payloads of every size
+    // class up to the limit; the payload carries well-formed frames (a disarming registration, a stop-all) at its tail and
+    // at offset 256, which must NOT be read as frames
+    for ty in [0x7Fu8, 0x00, 0x15, 0x43, 0x44, 0x45] {
+        for len in [255usize, 256, 257, 268, 300, 511, 512, 513, 1023, 1024] {
+            let mut p = vec![b'z'; len];
+            let mut inner = frame(0x10, &[0x00, b'x']);
+            inner.extend(frame(0x20, &[0x00]));
+            if len >= 256 + inner.len() {
+                p[256..256 + inner.len()].copy_from_slice(&inner);
+            }
+            let tail = frame(0x10, &[0x00, b'y']);
+            let n = tail.len();
+            if len >= 256 + inner.len() + n || (len >= n && len < 256) {
+                p[len - n..].copy_from_slice(&tail);
+            }
+            v.push(GenFrame { bytes: frame(ty, &p), class: "skipped-large" });
+        }
+    }
     // session (re-)registrations with names at and past the 64-character cap: ASCII, multi-byte characters straddling
     // byte 64, invalid UTF-8 (replaced by a 3-byte U+FFFD each), 4-byte characters
     let mut names: Vec<Vec<u8>> = vec![vec![b'n'; 64], vec![b'n'; 65], vec![b'n'; 300]];
